@@ -22,6 +22,7 @@ structure Comp where
   runnable : Bool
   failInit : Bool := false
   failRun  : Bool := false
+  failClose : Bool := false   -- `Close` returns an error (it is only logged / collected; closing goes on)
 deriving Repr, DecidableEq, Inhabited
 
 inductive Ev where
@@ -94,6 +95,10 @@ def start (cs : List Comp) : List Ev × Outcome :=
 def close (cs : List Comp) : List Ev :=
   if Generated.App.closeDescending then closeLoopDesc cs cs.length
   else closeLoopAsc cs cs.length
+
+/-- `App.Close` returns a non-nil error iff some runnable component's `Close` failed -/
+def closeErr (cs : List Comp) : Bool :=
+  cs.any (fun c => c.runnable && c.failClose)
 
 /-! ### lookup through a chain of containers (child first) -/
 
